@@ -1,8 +1,260 @@
 import Req.Driver.Proto
+import Req.Client.Form
+import Req.Client.Multipart
+import Req.Client.Body
+import Req.Client.Progress
 /-! Driver lanes of C17. -/
 namespace Req.Driver.L.C17
 open Req.Proto
 
-def lanes : List (String × (List String → String)) := []
+/-- keys + per-key counts + flat values → `Form.Values`. -/
+def mkValues (keys : List Bytes) (counts : List Nat) (vals : List Bytes) : Option Req.Form.Values :=
+  let rec go : List Bytes → List Nat → List Bytes → Option Req.Form.Values
+    | [], [], [] => some []
+    | k :: ks, n :: ns, vs =>
+      if vs.length < n then none
+      else (go ks ns (vs.drop n)).map fun r => (k, vs.take n) :: r
+    | _, _, _ => none
+  go keys counts vals
+
+/-- `c17ordered <args>` → body of handleOrderedFormData, or `err` (odd count). -/
+def laneOrdered : List String → String
+  | [args] =>
+    match decodeList args with
+    | some l => match Req.Form.encodeOrdered l with
+      | some b => encodeHex b
+      | none => "err"
+    | none => "bad-op"
+  | _ => "bad-op"
+
+/-- `c17form <rk> <rc> <rv> <ck> <cc> <cv>` → `Encode()` of request form merged with client form. -/
+def laneForm : List String → String
+  | [rk, rc, rv, ck, cc, cv] =>
+    match decodeList rk, decodeNatList rc, decodeList rv, decodeList ck, decodeNatList cc, decodeList cv with
+    | some rk, some rc, some rv, some ck, some cc, some cv =>
+      match mkValues rk rc rv, mkValues ck cc cv with
+      | some r, some c => encodeHex (Req.Form.encode (Req.Form.mergeForm r c))
+      | _, _ => "bad-op"
+    | _, _, _, _, _, _ => "bad-op"
+  | _ => "bad-op"
+
+/-- stable insertion sort of pairs by key (canonical rendering of a Go map of value lists). -/
+def sortPairs (ps : List Req.Form.Pair) : List Req.Form.Pair :=
+  ps.foldr (fun x acc =>
+    let rec ins : List Req.Form.Pair → List Req.Form.Pair
+      | [] => [x]
+      | y :: ys => if Req.Form.bytesLt y.1 x.1 then y :: ins ys else x :: y :: ys
+    ins acc) []
+
+/-- `c17parseq <body>` → server view (`url.ParseQuery`): keys, values (sorted by key, value
+order kept) and the error flag. -/
+def laneParseQ : List String → String
+  | [body] =>
+    match decodeHex body with
+    | some b =>
+      let (ps, err) := Req.Form.parseForm b
+      let sp := sortPairs ps
+      encodeList (sp.map (·.1)) ++ " " ++ encodeList (sp.map (·.2)) ++ " " ++ (if err then "err" else "ok")
+    | none => "bad-op"
+  | _ => "bad-op"
+
+/-! ### multipart -/
+
+/-- flat `k,v,k,v…` list → pairs (odd = none). -/
+def mkPairs : List Bytes → Option (List (Bytes × Bytes))
+  | [] => some []
+  | [_] => none
+  | k :: v :: r => (mkPairs r).map fun x => (k, v) :: x
+
+/-- parallel lists → files. -/
+def mkFiles : List Bytes → List Bytes → List Bytes → List Bytes → List Nat → List Bytes →
+    Option (List Req.Multipart.File)
+  | [], [], [], [], [], [] => some []
+  | p :: ps, n :: ns, t :: ts, c :: cs, k :: ks, ex =>
+    if ex.length < 2 * k then none
+    else do
+      let e ← mkPairs (ex.take (2 * k))
+      let r ← mkFiles ps ns ts cs ks (ex.drop (2 * k))
+      pure (⟨p, n, e, t, c⟩ :: r)
+  | _, _, _, _, _, _ => none
+
+def decodeFiles (a b c d e f : String) : Option (List Req.Multipart.File) := do
+  let a ← decodeList a
+  let b ← decodeList b
+  let c ← decodeList c
+  let d ← decodeList d
+  let e ← decodeNatList e
+  let f ← decodeList f
+  mkFiles a b c d e f
+
+/-- `c17mpwrite <boundary> <fields flat k,v> <params> <names> <ctypes> <contents> <extracounts> <extras>`
+→ the multipart body. -/
+def laneMpWrite : List String → String
+  | [b, flds, a1, a2, a3, a4, a5, a6] =>
+    match decodeHex b, (decodeList flds).bind mkPairs, decodeFiles a1 a2 a3 a4 a5 a6 with
+    | some b, some flds, some files => encodeHex (Req.Multipart.write b flds files)
+    | _, _, _ => "bad-op"
+  | _ => "bad-op"
+
+def showItems (items : List Req.Multipart.Item) : String :=
+  if items.isEmpty then "-" else
+  ";".intercalate (items.map fun
+    | .field n v => "v:" ++ encodeHex n ++ ":" ++ encodeHex v
+    | .file n f t c => "f:" ++ encodeHex n ++ ":" ++ encodeHex f ++ ":" ++ encodeHex t ++ ":" ++ encodeHex c)
+
+/-- `c17mpserver <boundary> <body>` → what the Lean SERVER makes of a body. -/
+def laneMpServer : List String → String
+  | [b, body] =>
+    match decodeHex b, decodeHex body with
+    | some b, some body =>
+      match Req.Multipart.serverForm b body with
+      | .ok items => showItems items
+      | .error .unsupported => "unsupported"
+      | .error _ => "reject"
+    | _, _ => "bad-op"
+  | _ => "bad-op"
+
+/-- `c17mpe2e <boundary> <fields> <files…>` → Lean server ∘ Lean client. -/
+def laneMpE2E : List String → String
+  | [b, flds, a1, a2, a3, a4, a5, a6] =>
+    match decodeHex b, (decodeList flds).bind mkPairs, decodeFiles a1 a2 a3 a4 a5 a6 with
+    | some b, some flds, some files =>
+      match Req.Multipart.serverForm b (Req.Multipart.write b flds files) with
+      | .ok items => showItems items
+      | .error .unsupported => "unsupported"
+      | .error _ => "reject"
+    | _, _, _ => "bad-op"
+  | _ => "bad-op"
+
+/-- `c17cd <param> <filename> <extras flat> <ctype>` → the part header block of a file
+(`createMultipartHeader` as `CreatePart` writes it). -/
+def laneCd : List String → String
+  | [p, n, ex, t] =>
+    match decodeHex p, decodeHex n, (decodeList ex).bind mkPairs, decodeHex t with
+    | some p, some n, some ex, some t => encodeHex (Req.Multipart.fileHeader ⟨p, n, ex, t, []⟩)
+    | _, _, _, _ => "bad-op"
+  | _ => "bad-op"
+
+/-- `c17quote <value>` → what a standard server reads back from `; filename="<quoted value>"`. -/
+def laneQuote : List String → String
+  | [v] =>
+    match decodeHex v with
+    | some v =>
+      match Req.Multipart.parseMediaType (Req.Multipart.fileDisposition ⟨[120], v, [], [], []⟩) with
+      | .ok (_, ps) => "ok " ++ encodeHex (Req.Multipart.lookup Req.Multipart.filenameKey ps)
+      | .error _ => "reject"
+    | none => "bad-op"
+  | _ => "bad-op"
+
+/-! ### body dispatch -/
+
+def decodeOpt (s : String) : Option (Option Bytes) :=
+  if s == "!" then some none else (decodeHex s).map some
+
+def showKind : Req.Body.Kind → String
+  | .none => "none" | .multipart => "multipart" | .form => "form"
+  | .marshalJson => "json" | .marshalXml => "xml" | .raw => "raw"
+
+/-- `c17body method allowGet multipart ck cc cv rk rc rv ordered boundary f1..f6 marshal json xml body reqCT clientCT sniffed` -/
+def laneBody : List String → String
+  | [m, ag, mp, ck, cc, cv, rk, rc, rv, ord, b, f1, f2, f3, f4, f5, f6, mf, js, xm, body, rct, cct, sn] =>
+    let r : Option String := do
+      let m ← decodeHex m
+      let ck ← decodeList ck; let cc ← decodeNatList cc; let cv ← decodeList cv
+      let rk ← decodeList rk; let rc ← decodeNatList rc; let rv ← decodeList rv
+      let cform ← mkValues ck cc cv
+      let rform ← mkValues rk rc rv
+      let ord ← decodeList ord
+      let b ← decodeHex b
+      let files ← decodeFiles f1 f2 f3 f4 f5 f6
+      let js ← decodeOpt js
+      let xm ← decodeOpt xm
+      let body ← decodeOpt body
+      let rct ← decodeHex rct
+      let cct ← decodeHex cct
+      let sn ← decodeHex sn
+      let cfg : Req.Body.Cfg := {
+        method := toStr m, allowGet := ag == "1", multipart := mp == "1",
+        clientForm := cform, reqForm := rform, ordered := ord, files := files, boundary := b,
+        marshal := if mf == "1" then some (js, xm) else none,
+        body := body, reqCT := rct, clientCT := cct, sniffed := sn }
+      match Req.Body.dispatch cfg with
+      | none => pure "err"
+      | some o =>
+        pure ((match o.body with | none => "nil" | some x => encodeHex x) ++ " " ++ encodeHex o.ct)
+    r.getD "bad-op"
+  | _ => "bad-op"
+
+/-- `c17wire …` = `c17body …` as seen on the wire: an empty body and no body look the same. -/
+def laneWire (args : List String) : String :=
+  let a := laneBody args
+  if a.startsWith "_ " then "nil " ++ (a.drop 2).toString else a
+
+/-- `c17forme2e rk rc rv ck cc cv ordered` → Lean server ∘ Lean client for urlencoded forms:
+what `ParseForm` holds (sorted by key, value order kept) and the error flag; `err` when the
+client refuses (odd ordered count). -/
+def laneFormE2E : List String → String
+  | [rk, rc, rv, ck, cc, cv, ord] =>
+    let r : Option String := do
+      let rk ← decodeList rk; let rc ← decodeNatList rc; let rv ← decodeList rv
+      let ck ← decodeList ck; let cc ← decodeNatList cc; let cv ← decodeList cv
+      let rform ← mkValues rk rc rv
+      let cform ← mkValues ck cc cv
+      let ord ← decodeList ord
+      match Req.Form.pairUp ord with
+      | none => pure "err"
+      | some pairs =>
+        let body := Req.Body.joinAmp (Req.Form.encodePairs pairs)
+          (Req.Form.encode (Req.Form.mergeForm rform cform))
+        let (ps, err) := Req.Form.parseForm body
+        let sp := sortPairs ps
+        pure (encodeList (sp.map (·.1)) ++ " " ++ encodeList (sp.map (·.2)) ++ " " ++ (if err then "err" else "ok"))
+    r.getD "bad-op"
+  | _ => "bad-op"
+
+/-! ### progress automata -/
+
+def showInts (l : List Int) : String :=
+  if l.isEmpty then "-" else ",".intercalate (l.map toString)
+
+def decodeIntList (s : String) : Option (List Int) :=
+  if s == "-" then some [] else (s.splitOn ",").mapM String.toInt?
+
+/-- `c17progw <total> <ns> <clock bits>` → callback arguments of the upload writer. -/
+def laneProgW : List String → String
+  | [tot, ns, cl] =>
+    match tot.toInt?, decodeIntList ns, decodeNatList cl with
+    | some tot, some ns, some cl =>
+      if ns.length != cl.length then "bad-op" else
+      showInts (Req.Progress.runW ⟨0, tot⟩ ((ns.zip cl).map fun (n, c) => ⟨n, c == 1⟩))
+    | _, _, _ => "bad-op"
+  | _ => "bad-op"
+
+/-- `c17progr <ns> <eof bits> <clock bits>` → callback arguments of the download reader. -/
+def laneProgR : List String → String
+  | [ns, eofs, cl] =>
+    match decodeIntList ns, decodeNatList eofs, decodeNatList cl with
+    | some ns, some eofs, some cl =>
+      if ns.length != cl.length || ns.length != eofs.length then "bad-op" else
+      showInts (Req.Progress.runR ⟨0, 0⟩
+        (((ns.zip eofs).zip cl).map fun ((n, e), c) => ⟨n, e == 1, c == 1⟩))
+    | _, _, _ => "bad-op"
+  | _ => "bad-op"
+
+def lanes : List (String × (List String → String)) := [
+  ("c17ordered", laneOrdered),
+  ("c17form", laneForm),
+  ("c17parseq", laneParseQ),
+  ("c17mpwrite", laneMpWrite),
+  ("c17mpserver", laneMpServer),
+  ("c17mpe2e", laneMpE2E),
+  ("c17cd", laneCd),
+  ("c17quote", laneQuote),
+  ("c17body", laneBody),
+  ("c17wire", laneWire),
+  ("c17forme2e", laneFormE2E),
+  ("c17progw", laneProgW),
+  ("c17progr", laneProgR)
+]
 
 end Req.Driver.L.C17
